@@ -79,6 +79,12 @@ def gen_cases(tier, seed):
         i += 1
         yield {'family': fmt, 'sizes': [4, 2], 'format': fmt, 'pretty': True, 'idx': i, 'seed': seed, 'tier': tier,
                'filehash': True, 'second_run_after_output_removed': True}
+    # byte counters switched off, the resource hash on (with and without add_filehash_to_path): the recorded hash is the file's
+    for fmt in ('csv', 'json'):
+        for fh in (False, True):
+            i += 1
+            yield {'family': fmt, 'sizes': [6, 2], 'format': fmt, 'pretty': True, 'idx': i, 'seed': seed, 'tier': tier,
+                   'filehash': fh, 'no_bytes': True}
     # add_filehash_to_path (with and without the resource-hash counter): the listed path must be the written one
     for fmt in ('csv', 'json'):
         for nohash in (False, True):
@@ -115,6 +121,7 @@ def run_case(case):
             d.Flow(*[lab.source('res%d' % i, F, t) for i, t in enumerate(tables)],
                    d.dump_to_path('prev', format='json' if case['format'] == 'csv' else 'csv')).process()
     cfg['source_is_a_loaded_dump'] = bool(case.get('redump'))
+    cfg['byte_counters_off'] = bool(case.get('no_bytes'))
     cfg['same_flow_run_again_after_output_removed'] = bool(case.get('second_run_after_output_removed'))
 
     def run_dump(out):
@@ -140,6 +147,8 @@ def run_case(case):
             kw['add_filehash_to_path'] = True
         if case.get('no_resource_hash'):
             kw['counters'] = {'resource-hash': None}
+        if case.get('no_bytes'):
+            kw['counters'] = {'datapackage-bytes': None, 'resource-bytes': None}
         if case.get('no_force_format'):
             kw['force_format'] = False
         steps.append(d.dump_to_path(out, format=case['format'], pretty_descriptor=case['pretty'], **kw))
@@ -188,7 +197,8 @@ def run_case(case):
             if not os.path.isfile(fp):
                 return 'parseable descriptor lists %r which does not exist' % rd.get('path')
             data = open(fp, 'rb').read()
-            if rd.get('bytes') != len(data) or (rd.get('hash') is not None and rd.get('hash') != iolab.md5(data)):
+            if (not case.get('no_bytes') and rd.get('bytes') != len(data)) or \
+                    (rd.get('hash') is not None and rd.get('hash') != iolab.md5(data)):
                 return 'parseable descriptor lists %r with bytes=%r but the file has %d bytes' % (
                     rd.get('path'), rd.get('bytes'), len(data))
         return None
@@ -280,7 +290,7 @@ def run_case(case):
                     % (what, p, w.listing()), 'listed_file_missing')
                 continue
             data = w.read(p)
-            if rd.get('bytes') != len(data):
+            if not case.get('no_bytes') and rd.get('bytes') != len(data):
                 add('listed_file_size', '%s: %r recorded bytes=%r, file has %d' % (what, p, rd.get('bytes'), len(data)),
                     'listed_file_size')
             elif rd.get('hash') is not None and rd.get('hash') != iolab.md5(data):
